@@ -37,6 +37,7 @@ import (
 	"encoding/base64"
 	"errors"
 	"fmt"
+	"math"
 	"math/rand"
 	"net/http"
 	"os"
@@ -188,6 +189,15 @@ func (s *stepper) Begin(b replay.Behaviour, rng *rand.Rand) error {
 	s.stranger = randBytes(rng, 32)
 	s.otherWorker = randBytes(rng, 32)
 
+	// far-past timestamps must still be non-negative decimals: move the epoch out far enough
+	farMag := map[string]int64{"fut9": 1e9, "fut10": 1e10, "fut12": 1e12, "fut15": 1e15,
+		"past9": 1e9, "past10": 1e10, "past12": 1e12, "past15": 1e15}
+	for _, pv := range replay.List(a, "proofs") {
+		pm, _ := pv.(map[string]any)
+		if far := replay.Str(pm, "far"); strings.HasPrefix(far, "past") && s.t0 < farMag[far] {
+			s.t0 = farMag[far] + int64(rng.Intn(1000))
+		}
+	}
 	nonceOf := map[int]string{}
 	s.proofs = nil
 	for _, pv := range replay.List(a, "proofs") {
@@ -206,8 +216,23 @@ func (s *stepper) Begin(b replay.Behaviour, rng *rand.Rand) error {
 				}
 			}
 		}
+		ts := s.t0 + s.k*int64(replay.Int(pm, "ts"))
+		switch far := replay.Str(pm, "far"); {
+		case far == "futmax":
+			// MaxInt64 and neighbours, incl. the values around which time.Unix wraps
+			ts = pick(rng, int64(math.MaxInt64), math.MaxInt64-1, math.MaxInt64-int64(rng.Intn(1_000_000)),
+				9_000_000_000_000_000_000, math.MaxInt64-62135596800, math.MaxInt64-62135596801,
+				math.MaxInt64-62135596799)
+		case strings.HasPrefix(far, "fut"):
+			ts = s.t0 + farMag[far] + int64(rng.Intn(1000))
+		case strings.HasPrefix(far, "past"):
+			ts = s.t0 - farMag[far] + int64(rng.Intn(1000))
+			if ts < 0 {
+				ts = 0
+			}
+		}
 		s.proofs = append(s.proofs, proofC{
-			ts:    s.t0 + s.k*int64(replay.Int(pm, "ts")),
+			ts:    ts,
 			nonce: nonceOf[id],
 			kid:   replay.Str(pm, "kid"),
 		})
